@@ -9,6 +9,7 @@ from dsim.sim import ALL_SLOTS, Sim
 from dsim.world import substream
 
 PROPERTY = "C19"
+DECOY = 0.25  # share of runs that edit a second document first and keep it open (runner.with_decoy)
 RULE = (
     "one run = a seeded history of add_sheet/add_table (named, unnamed, case-variant duplicates, names that look generated, empty and "
     "non-ASCII names), renames, lookups by every name and by every index in [-2n-k, 2n+k], saves and restarts; oracles: unique names "
